@@ -22,6 +22,7 @@ from . import distfam as D
 
 LEVEL = "model_checking"
 BIG = 2_000_000_000
+ORDERS = ("plain_first", "f_first", "positional")
 
 # true parameters of the own-family data = distfam.STORED; start values (passed as plain
 # arguments, also for fixed names: "if f_x is set, x is ignored") and declared fixed values
@@ -195,21 +196,25 @@ def fit_record(vc, rid, case, seed=0):
     with warnings.catch_warnings(), np.errstate(all="ignore"):
         warnings.simplefilter("ignore")
         try:
-            # NewDist
-            dist = D.build(vc, fam, start, fixed=fx)
-            rec["cdev"] = Qc(reldev(dist, F, fx), 1e15, 0, BIG)
-            ok_attr = fattr_ok(dist, fam, fx)
+            # NewDist, in every keyword order (plain values first / f_ values first / plain values
+            # positionally + f_ keywords); the first one goes on through the life cycle
+            objs = [D.build(vc, fam, start, fixed=fx, order=o) for o in ORDERS]
+            dist = objs[0]
+            rec["cdev"] = Qc(max(reldev(o, F, fx) for o in objs), 1e15, 0, BIG)
+            ok_attr = all(fattr_ok(o, fam, fx) for o in objs)
+            rec["ctorsame"] = all(dict(o.parameters) == dict(dist.parameters) for o in objs)
             # Eval
             resolved = {k: (fx[k] if k in F else start[k]) for k in names}
             ref = D.build(vc, fam, resolved)
-            before = dict(dist.parameters)
+            before = [dict(o.parameters) for o in objs]
             same = True
             for meth in ("pdf", "cdf", "icdf"):
                 arg = np.array(D.P_BODY if meth == "icdf" else D.X_BODY)
-                same = same and D.compare(getattr(dist, meth)(arg), getattr(ref, meth)(arg))[0]
+                want = getattr(ref, meth)(arg)
+                same = same and all(D.compare(getattr(o, meth)(arg), want)[0] for o in objs)
             rec["evalsame"] = bool(same)
-            rec["evalkeep"] = dict(dist.parameters) == before
-            ok_attr = ok_attr and fattr_ok(dist, fam, fx)
+            rec["evalkeep"] = [dict(o.parameters) for o in objs] == before
+            ok_attr = ok_attr and all(fattr_ok(o, fam, fx) for o in objs)
             # FitDist, twice
             prev = dict(dist.parameters)
             for k, data in ((1, data1), (2, data2)):
@@ -431,7 +436,7 @@ def run(ctx):
     vc = import_virocon()
     ctx.rule = ("TLC enumerates every (family, proper subset F of its parameter names fixed [incl. none], fit method "
                 "mle/lsq/wlsq, data from the own / another family); each is run on the real class as construct(start "
-                "values + f_<n>) -> evaluate -> fit -> re-fit (thorough: 8 variants with other seeds and sample sizes); plus "
+                "values + f_<n>, in three argument orders) -> evaluate (all three) -> fit -> re-fit (thorough: 8 variants with other seeds and sample sizes); plus "
                 "every (family, parameter, special fixed value kind: 0.0 / int 0 / -0.0 / negative / outside [-pi,pi] / "
                 "integer-typed / far from the data) with MLE; every life cycle is also run at two positions of two "
                 "seeded shuffled sequential runs in one process and must reproduce outcomes and fitted parameters bit "
@@ -446,7 +451,8 @@ def run(ctx):
                        "all parameters fixed at once is not a proper subset and is not exercised",
                        "FreeEstimated is observed as: every free parameter is finite and differs from its value "
                        "before the fit",
-                       "plain and f_ keyword for the same name are both passed (plain first)"]
+                       "plain and f_ value for the same name are both passed, in three argument orders (plain keywords first, "
+                       "f_ keywords first, plain values positionally + f_ keywords); the first instance runs the fits"]
     ctx.model_check("ParamRouting", "MC_ParamRouting_fit.cfg", must_cover=("NewDist", "Eval", "FitDist"))
     ctx.model_check("ParamRouting", "MC_ParamRouting_fit_mut_ctor.cfg", expect_violation="FixedHonoured")
     ctx.model_check("ParamRouting", "MC_ParamRouting_fit_mut_fitkw.cfg", expect_violation="FitOutcomeAsSpecified")
